@@ -41,6 +41,15 @@ func (cw *CodeWriter) WriteRune(r rune) {
 	}
 }
 
+// writeLayout writes layout text (pending whitespace, indentation, comments)
+// and keeps the source mapper's generated position in step with the output.
+func (cw *CodeWriter) writeLayout(s string) {
+	cw.Builder.WriteString(s)
+	if cw.Mapper != nil {
+		cw.Mapper.AdvanceString(s)
+	}
+}
+
 // SeparateSign writes a space when the operator about to be written starts
 // with the sign character that was written last: without it the two would be
 // read back as one token (a - -b as a--b, a + ++b as a+++b, -(-x) as --x).
